@@ -47,21 +47,33 @@ def check_metadata(report):
     consts = {k: m.const("gapic.schema.api", k) for k in ("TRANSPORT_GRPC", "TRANSPORT_GRPC_ASYNC", "TRANSPORT_REST")}
     r.instance(consts)
     r.check(consts == {"TRANSPORT_GRPC": "grpc", "TRANSPORT_GRPC_ASYNC": "grpc-async", "TRANSPORT_REST": "rest"}, p, 0, str(consts), "transport labels")
+    # the transport/class table may be built in place or in a helper called from here: look one call level down as well
+    from ..pynorm import normalizer
+    N = normalizer(m)
+    cands = [fi]
+    for c in calls(fn):
+        t = N._callee(fi, c, {})
+        if t is not None and t[0].qual.startswith("gapic.schema.") and t[0] not in cands:
+            cands.append(t[0])
     appends = []
-    for i in ast.walk(fn):
-        if isinstance(i, ast.If):
-            b = pmatch("'grpc' in _O_.transport", i.test, {"_O_": OPT}) or pmatch("'rest' in _O_.transport", i.test, {"_O_": OPT})
-            if b is not None:
-                kind = "grpc" if "'grpc'" in ast.unparse(i.test) else "rest"
-                for st in i.body:
-                    if isinstance(st, ast.Expr) and isinstance(st.value, ast.Call) and ast.unparse(st.value.func).endswith(".append") and st.value.args:
-                        appends.append((kind, ast.unparse(st.value.args[0])))
-    SV = None
+    from .common_rules import guarded_list_items
+    for cfi in cands:
+        for guard, a0 in guarded_list_items(cfi.node):
+            if guard is None:
+                continue
+            kind = "grpc" if pmatch("'grpc' in _O_.transport", ast.parse(guard, mode="eval").body) is not None else \
+                ("rest" if pmatch("'rest' in _O_.transport", ast.parse(guard, mode="eval").body) is not None else None)
+            if kind is None:
+                continue
+            if isinstance(a0, ast.Tuple) and len(a0.elts) == 2 and isinstance(a0.elts[1], ast.Attribute) and isinstance(a0.elts[1].value, ast.Name):
+                appends.append((kind, f"({ast.unparse(a0.elts[0])}, <service>.{a0.elts[1].attr})"))
+            else:
+                appends.append((kind, ast.unparse(a0)))
     loops = [n for n in fn.body if isinstance(n, ast.For)]
     r.need(len(loops) == 1 and isinstance(loops[0].target, ast.Name), "for service in sorted(services)")
     SV = loops[0].target.id
-    exp = [("grpc", f"(TRANSPORT_GRPC, {SV}.client_name)"), ("grpc", f"(TRANSPORT_GRPC_ASYNC, {SV}.async_client_name)"),
-           ("rest", f"(TRANSPORT_REST, {SV}.client_name)")]
+    exp = [("grpc", "(TRANSPORT_GRPC, <service>.client_name)"), ("grpc", "(TRANSPORT_GRPC_ASYNC, <service>.async_client_name)"),
+           ("rest", "(TRANSPORT_REST, <service>.client_name)")]
     r.instance("transport table")
     r.check(appends == exp, p, fn.lineno, str(appends), "grpc -> sync + asyncio client, rest -> sync client, each with its class name")
     r.instance("services sorted")
@@ -92,7 +104,9 @@ def check_metadata(report):
         r.check(False, p, fn.lineno, "rpcs.get_or_create(<rpc name>)", "rpc entries missing")
     ctor = [c for c in calls(fn) if ast.unparse(c.func) == "gapic_metadata_pb2.GapicMetadata"]
     r.need(len(ctor) == 1, "GapicMetadata(...)")
-    k = {x.arg: ast.unparse(x.value) for x in ctor[0].keywords}
+    from ..pymodel import nfunc
+    nctor = [c for c in ast.walk(nfunc(m, fi)) if isinstance(c, ast.Call) and ast.unparse(c.func) == "gapic_metadata_pb2.GapicMetadata"]
+    k = {x.arg: ast.unparse(x.value) for x in (nctor[0] if nctor else ctor[0]).keywords}
     r.instance("packages")
     r.check(k.get("proto_package") == "self.naming.proto_package" and
             k.get("library_package") == "'.'.join(self.naming.module_namespace + (self.naming.versioned_module_name,))", p, ctor[0].lineno,
@@ -169,6 +183,14 @@ def check_fixup(report, lib: Lib):
     fors = [f for f in tree.find_all(nodes.For)]
     outer = [f for f in fors if isinstance(f.iter, nodes.Call) and isinstance(f.iter.node, nodes.Getattr) and f.iter.node.attr == "values"
              and isinstance(f.iter.node.node, nodes.Getattr) and f.iter.node.node.attr in ("services", "methods") and f.test is None]
+    if len(outer) == 1:
+        # one loop over the services whose body extends the list with ALL methods of the service
+        for f in outer:
+            for c in f.find_all(nodes.Call):
+                if isinstance(c.node, nodes.Getattr) and c.node.attr == "extend" and len(c.args) == 1 and isinstance(c.args[0], nodes.Call) \
+                        and isinstance(c.args[0].node, nodes.Getattr) and c.args[0].node.attr == "values" \
+                        and isinstance(c.args[0].node.node, nodes.Getattr) and c.args[0].node.node.attr == "methods":
+                    outer = outer + [c]
     r3.instance("all services x all methods")
     r3.check(len(outer) >= 2, lib.path(tname), 0, "loops over api.services.values() and service.methods.values()", "the table must be collected from every method of every service, unfiltered")
 
@@ -178,10 +200,13 @@ def check_legacy(report):
     m = pm()
     lf = m.func("gapic.schema.wrappers.Method.legacy_flattened_fields")
     p = lf.module.path
+    from ..pymodel import nmatch
+    stable = nmatch(m, "collections.OrderedDict(((_F_.name, _F_) for _F_ in sorted(self.input.fields.values(), key=lambda _G_: not _G_.required)))", lf)
     a = [n for n in ast.walk(lf.node) if isinstance(n, ast.Assign) and isinstance(n.targets[0], ast.Tuple) and len(n.targets[0].elts) == 2
          and pmatch("utils.partition(lambda _F_: _F_.required, self.input.fields.values())", n.value) is not None]
     r4.instance("partition call")
-    r4.check(len(a) == 1, p, lf.node.lineno, "required, optional = utils.partition(lambda f: f.required, self.input.fields.values())",
+    # either partition + chain, or a STABLE sort whose key is `not required` (False sorts first; ties keep declaration order)
+    r4.check(len(a) == 1 or stable is not None, p, lf.node.lineno, "required, optional = utils.partition(lambda f: f.required, self.input.fields.values())",
              "all request fields must be partitioned by `required`")
     if a:
         REQ, OPT = [e.id for e in a[0].targets[0].elts]
